@@ -118,6 +118,25 @@ def check_case(col, cfgname, t, rng):
             tol = 1e-6 if name == "MPD" else 1e-9
             if abs(v0 - target) > tol:
                 viol(f"gen.{name}/collinear_value", f"{name} = {v0!r} for a complex multiple of a real vector (expected {target})")
+    # the same relations on a shape with a wide dynamic range (normalised to a unit component, the others 1e-2 .. 1e-5):
+    # after scaling by 1e-6 its small components are far below any absolute tolerance
+    dyn = x * np.array([10.0 ** (-2.0 * k if k < 2 else -5.0) for k in range(len(x))])
+    if np.count_nonzero(dyn) >= 2:
+        dyn = dyn / dyn[np.argmax(np.abs(dyn))]
+        for name, f in (("MPC", gen.MPC), ("MPD", gen.MPD), ("MCF", gen.MCF)):
+            try:
+                d0 = float(np.real(np.atleast_1d(f(dyn))[0]))
+            except Exception as e:
+                viol(f"gen.{name}/raised", f"{name} raised {e!r} on a unit-normalised shape with small components")
+                continue
+            if not finite(d0):
+                col.bump(f"{name}_not_finite_non_collinear")
+                continue
+            for s in factors:
+                d1 = float(np.real(np.atleast_1d(f(s * dyn))[0]))
+                if not finite(d1) or abs(d1 - d0) > (1e-6 if name == "MPD" else TOL):
+                    viol(f"gen.{name}/scale_invariance/wide_dynamic_range", f"{name}({s} * x) = {d1!r}, {name}(x) = {d0!r} for x = {dyn}")
+                    break
     for s in factors:
         ms = float(gen.MAC(s * x, y))
         if not finite(ms) or abs(ms - m) > TOL:
